@@ -62,20 +62,21 @@ theorem respond_spec (s : Srv) (body : Bytes) (ack : Option BlockOpt) (q : Optio
     exact ⟨rfl, rfl⟩
 
 theorem body_block_spec (s : Srv) (req : Req) (c : Choice) (b : BlockOpt)
-    (hb : req.block1 = some b) (h6 : b.szx ≤ 6)
-    (hlen : b.more = true → req.payload.length = blockSize b.szx)
-    (hoff : b.num * blockSize b.szx = (if b.num = 0 then [] else s.buf).length) :
+    (hb : req.block1 = some b) (h7 : b.szx ≤ 7)
+    (hlen : b.more = true → BlkLen b.szx req.payload.length)
+    (hoff : b.num * b.size = (if b.num = 0 then [] else s.buf).length) :
     s.body req c =
       if b.more then
         ({ s with buf := (if b.num = 0 then [] else s.buf) ++ req.payload },
-         { code := codeContinue, block1 := some { num := b.num, more := b.more, szx := min c.szx b.szx },
+         { code := codeContinue,
+           block1 := some { num := b.num, more := b.more, szx := min c.szx (min b.szx 6) },
            block2 := none, etag := none, payload := [] })
       else s.respond ((if b.num = 0 then [] else s.buf) ++ req.payload)
-             (some { num := b.num, more := b.more, szx := min c.szx b.szx }) req.block2 c := by
+             (some { num := b.num, more := b.more, szx := min c.szx (min b.szx 6) }) req.block2 c := by
   unfold Srv.body
   simp only [hb]
-  have h1 : ¬ b.szx > 6 := by omega
-  have h2 : ¬ (b.more = true ∧ req.payload.length ≠ blockSize b.szx) := fun ⟨hm, hne⟩ => hne (hlen hm)
+  have h1 : ¬ b.szx > 7 := by omega
+  have h2 : ¬ (b.more = true ∧ ¬ BlkLen b.szx req.payload.length) := fun ⟨hm, hne⟩ => hne (hlen hm)
   simp only [h1, ↓reduceIte, h2, hoff, ne_eq, not_true_eq_false]
 
 -- the joint invariant -----------------------------------------------------------------------------
@@ -85,7 +86,7 @@ def J (cfg : Cfg) (rep : Bytes) (etag : Option Bytes) (code : Nat) : Phase → S
   | .b1 st cur, s =>
     s.rep = rep ∧ s.etag = etag ∧ s.code = code ∧
     B1Inv cfg st ∧ nextRequest cfg st = some cur ∧
-    (if st.cursor = 0 then ([] : Bytes) else s.buf) = cfg.payload.take (st.cursor * blockSize st.szx)
+    (if st.cursor = 0 then ([] : Bytes) else s.buf) = cfg.payload.take (st.cursor * unit st.szx)
   | .b2 t a cur, s =>
     s.rep = rep ∧ s.etag = etag ∧ s.code = code ∧
     s.recorded = some cfg.payload ∧ a.code = code ∧ a.etag = etag ∧ a.block2.szx ≤ 6 ∧
@@ -97,7 +98,7 @@ def J (cfg : Cfg) (rep : Bytes) (etag : Option Bytes) (code : Nat) : Phase → S
 
 /-- what is left to do -/
 def mu (cfg : Cfg) (rep : Bytes) : Phase → Nat
-  | .b1 st _ => (cfg.payload.length - st.cursor * blockSize st.szx) + rep.length + 2
+  | .b1 st _ => (cfg.payload.length - st.cursor * unit st.szx) + rep.length + 2
   | .b2 _ a _ => rep.length - a.payload.length
   | .done _ => 0
 
@@ -124,8 +125,11 @@ theorem J_complete (cfg : Cfg) (cur : Req) (s : Srv) (r : Resp)
       have hlen : r.payload.length = blockSize z := by
         rw [hp, List.length_take]; omega
       have hsz : BlockOpt.size ⟨0, true, z⟩ = blockSize z := BlockOpt.size_eq (b := ⟨0, true, z⟩) hz
-      have hv : BlockOpt.validFor ⟨0, true, z⟩ r.payload.length = true := by
-        simp [BlockOpt.validFor, hsz, hlen]
+      have hz7 : ¬ z = 7 := by omega
+      have hv : BlockOpt.okFor ⟨0, true, z⟩ r.payload.length = true := by
+        have := blockSize_pos z
+        simp [BlockOpt.okFor, BlockOpt.validFor, hz7, hsz, hlen]
+        omega
       simp only [Bool.not_true, Bool.false_eq_true, ↓reduceIte, ne_eq, not_true_eq_false, hv]
       have hinv : B2Inv ⟨r.code, r.etag, r.payload, ⟨0, true, z⟩⟩ := by
         simp only [B2Inv, hsz, hlen]
@@ -173,76 +177,81 @@ theorem J.exchange {cfg : Cfg} {rep : Bytes} {etag : Option Bytes} {code : Nat} 
     subst hout
     obtain ⟨hrep, hetag, hcd, hinv, hcur, hbuf⟩ := hJ
     subst hrep hetag hcd
+    have hcur0 := hcur
     rw [nextRequest_eq hinv] at hcur
-    by_cases hf : cfg.payload.length > threshold cfg st.szx
+    by_cases hf : fragmented cfg st.szx = true
     · -- a block of a fragmented transfer
-      simp only [hf, ↓reduceIte, Option.some.injEq] at hcur
-      have hin := hinv.inside hf
+      have hfacts := (b1_cur_facts hinv hcur0).2
+      have hnextinv := fun hsm t => B1Inv.next hinv hcur0 hsm t
+      simp only [hf, Bool.false_eq_true, ↓reduceIte, Option.some.injEq] at hcur
+      have hin := inside_off hinv hf
+      obtain ⟨hbpos, _, _, hblen⟩ := blk_spec (mp := cfg.maxPayload) hinv.szx_le hinv.bert
       have hb2 : cur0.block2 = hintOpt cfg := by rw [← hcur]
       have hhandle : s.handle cur0 c = s.body cur0 c := handle_of_hint cfg s c hb2
       have hb1 : cur0.block1 = some ⟨st.cursor,
-          decide (st.cursor * blockSize st.szx + blockSize st.szx < cfg.payload.length), st.szx⟩ := by
+          decide (st.cursor * unit st.szx + blk cfg.maxPayload st.szx < cfg.payload.length), st.szx⟩ := by
         rw [← hcur]
-      have hpay : cur0.payload = (cfg.payload.drop (st.cursor * blockSize st.szx)).take (blockSize st.szx) := by
+      have hpay : cur0.payload
+          = (cfg.payload.drop (st.cursor * unit st.szx)).take (blk cfg.maxPayload st.szx) := by
         rw [← hcur]
-      have hbuflen : (if st.cursor = 0 then ([] : Bytes) else s.buf).length = st.cursor * blockSize st.szx := by
+      have hbuflen : (if st.cursor = 0 then ([] : Bytes) else s.buf).length = st.cursor * unit st.szx := by
         rw [hbuf, List.length_take]; omega
       have hspec := body_block_spec s cur0 c _ hb1 hinv.szx_le
         (by
           intro hm
           simp only [decide_eq_true_eq] at hm
-          show cur0.payload.length = blockSize st.szx
-          rw [hpay, List.length_take, List.length_drop]; omega)
-        (by simp only; rw [hbuflen])
+          show BlkLen st.szx cur0.payload.length
+          rw [hpay, slice_len hm]
+          exact hblen)
+        (by simp only; rw [hbuflen]; rfl)
       simp only at hspec
       have hnewbuf : (if st.cursor = 0 then ([] : Bytes) else s.buf) ++ cur0.payload
-          = cfg.payload.take (st.cursor * blockSize st.szx + blockSize st.szx) := by
+          = cfg.payload.take (st.cursor * unit st.szx + blk cfg.maxPayload st.szx) := by
         rw [hbuf, hpay, take_append_slice]
       have hsent : sentBlock1 st cur0 = ⟨st.cursor,
-          decide (st.cursor * blockSize st.szx + blockSize st.szx < cfg.payload.length), st.szx⟩ := by
+          decide (st.cursor * unit st.szx + blk cfg.maxPayload st.szx < cfg.payload.length), st.szx⟩ := by
         simp [sentBlock1, hb1]
       rw [hhandle, hspec]
-      by_cases hm : st.cursor * blockSize st.szx + blockSize st.szx < cfg.payload.length
+      by_cases hm : st.cursor * unit st.szx + blk cfg.maxPayload st.szx < cfg.payload.length
       · -- 2.31, the loop continues
+        have hsm : (sentBlock1 st cur0).more = true := by rw [hsent]; simp [hm]
         simp only [hm, decide_true, ↓reduceIte]
-        rw [step_b1_some (a := ⟨st.cursor, true, min c.szx st.szx⟩) rfl]
+        rw [step_b1_some (a := ⟨st.cursor, true, min c.szx (min st.szx 6)⟩) rfl]
         simp only [hsent, hm, decide_true, ne_eq, not_true_eq_false, ↓reduceIte, Bool.not_true,
           Bool.false_eq_true]
-        have hnext := B1Inv.next hinv hf hm (min c.szx st.szx)
+        have hnext := hnextinv hsm (min c.szx (min st.szx 6))
         obtain ⟨cur', hc1, hc2⟩ := enterB1_of_inv hnext
         rw [hc2]
-        have hoff := reduce_offset (min c.szx st.szx) st.szx (st.cursor + 1)
-        rw [Nat.add_mul, Nat.one_mul] at hoff
+        have hoff := reduceB_offset (t := min c.szx (min st.szx 6)) (advance st cur0) hinv.szx_le
+        rw [(hfacts hsm).2.2] at hoff
         refine ⟨⟨rfl, rfl, rfl, hnext, hc1, ?_⟩, ?_⟩
         · simp only
           rw [hoff]
-          have hne : (reduce (min c.szx st.szx) st.szx (st.cursor + 1)).2 ≠ 0 := by
+          have hne : (reduceB (min c.szx (min st.szx 6)) st.szx (advance st cur0)).2 ≠ 0 := by
             intro h0
             rw [h0, Nat.zero_mul] at hoff
-            have := blockSize_pos st.szx
             omega
           simp only [hne, ↓reduceIte]
           exact hnewbuf
         · simp only [mu]
           rw [hoff]
-          have := blockSize_pos st.szx
           omega
       · -- the last block: the body is complete
         simp only [hm, decide_false, Bool.false_eq_true, ↓reduceIte]
         obtain ⟨hs1, hs2, hs3, hs4, hs5⟩ := respond_spec s
           ((if st.cursor = 0 then ([] : Bytes) else s.buf) ++ cur0.payload)
-          (some ⟨st.cursor, false, min c.szx st.szx⟩) cur0.block2 c
+          (some ⟨st.cursor, false, min c.szx (min st.szx 6)⟩) cur0.block2 c
         obtain ⟨hk1, hk2, hk3, hk4⟩ := respond_const s
           ((if st.cursor = 0 then ([] : Bytes) else s.buf) ++ cur0.payload)
-          (some ⟨st.cursor, false, min c.szx st.szx⟩) cur0.block2 c
+          (some ⟨st.cursor, false, min c.szx (min st.szx 6)⟩) cur0.block2 c
         rw [step_b1_some hs3]
         have hcc : ¬ ((s.respond ((if st.cursor = 0 then ([] : Bytes) else s.buf) ++ cur0.payload)
-            (some ⟨st.cursor, false, min c.szx st.szx⟩) cur0.block2 c).2.code
+            (some ⟨st.cursor, false, min c.szx (min st.szx 6)⟩) cur0.block2 c).2.code
               = codeContinue) := by rw [hs2]; exact hcode
         simp only [hsent, hm, decide_false, ne_eq, not_true_eq_false, ↓reduceIte, Bool.not_false,
           Bool.false_or, beq_iff_eq, hcc]
         have hrec : (s.respond ((if st.cursor = 0 then ([] : Bytes) else s.buf) ++ cur0.payload)
-            (some ⟨st.cursor, false, min c.szx st.szx⟩) cur0.block2 c).1.recorded
+            (some ⟨st.cursor, false, min c.szx (min st.szx 6)⟩) cur0.block2 c).1.recorded
               = some cfg.payload := by
           rw [hk4, hnewbuf, List.take_of_length_le (by omega)]
         have := J_complete cfg cur0 _ _ hrec (by rw [hs2, hk3]) (by rw [hs4, hk2])
@@ -251,11 +260,11 @@ theorem J.exchange {cfg : Cfg} {rep : Bytes} {etag : Option Bytes} {code : Nat} 
         refine ⟨this.1, ?_⟩
         have h2 := this.2
         have hmu : mu cfg s.rep (Phase.b1 st cur0)
-            = (cfg.payload.length - st.cursor * blockSize st.szx) + s.rep.length + 2 := rfl
+            = (cfg.payload.length - st.cursor * unit st.szx) + s.rep.length + 2 := rfl
         rw [hmu]
         omega
     · -- the whole payload in one request
-      simp only [hf, ↓reduceIte, Option.some.injEq] at hcur
+      simp only [hf, Bool.false_eq_true, ↓reduceIte, Option.some.injEq] at hcur
       have hb2 : cur0.block2 = hintOpt cfg := by rw [← hcur]
       have hhandle : s.handle cur0 c = s.respond cfg.payload none cur0.block2 c := by
         rw [handle_of_hint cfg s c hb2, ← hcur]; simp [Srv.body]
@@ -269,7 +278,7 @@ theorem J.exchange {cfg : Cfg} {rep : Bytes} {etag : Option Bytes} {code : Nat} 
       refine ⟨this.1, ?_⟩
       have h2 := this.2
       have hmu : mu cfg s.rep (Phase.b1 st cur0)
-          = (cfg.payload.length - st.cursor * blockSize st.szx) + s.rep.length + 2 := rfl
+          = (cfg.payload.length - st.cursor * unit st.szx) + s.rep.length + 2 := rfl
       rw [hmu]
       omega
   | b2 t a cur0 =>
@@ -299,17 +308,18 @@ theorem J.exchange {cfg : Cfg} {rep : Bytes} {etag : Option Bytes} {code : Nat} 
     have hqnum : q.num ≠ 0 := by
       intro h0; rw [h0, Nat.zero_mul] at hqoff; omega
     -- the server's answer
-    have hhandle : s.handle cur0 c = (s, sliceResp s k (min c.szx q.szx) none) := by
+    have hqoff' : q.num * q.size = k := by rw [BlockOpt.size_eq hqszx]; exact hqoff
+    have hhandle : s.handle cur0 c = (s, sliceResp s k (min c.szx (min q.szx 6)) none) := by
       unfold Srv.handle
-      simp only [hcb2, hqnum, ne_eq, not_false_eq_true, ↓reduceIte, hqoff]
-      have h1 : ¬ q.szx > 6 := by omega
+      simp only [hcb2, hqnum, ne_eq, not_false_eq_true, ↓reduceIte, hqoff']
+      have h1 : ¬ q.szx > 7 := by omega
       have h2 : ¬ k ≥ s.rep.length := by omega
       simp only [h1, ↓reduceIte, h2]
     rw [hhandle]
     simp only
-    have hz : min c.szx q.szx ≤ 6 := by have := Nat.min_le_right c.szx q.szx; omega
-    generalize hzdef : min c.szx q.szx = z at hz
-    have hzq : z ≤ q.szx := by rw [← hzdef]; exact Nat.min_le_right _ _
+    have hz : min c.szx (min q.szx 6) ≤ 6 := by omega
+    generalize hzdef : min c.szx (min q.szx 6) = z at hz
+    have hzq : z ≤ q.szx := by rw [← hzdef]; omega
     have hbsdvd : blockSize z ∣ k := by
       rw [← hqoff]
       exact Nat.dvd_trans (blockSize_dvd hzq) (Nat.dvd_mul_left _ _)
@@ -324,12 +334,17 @@ theorem J.exchange {cfg : Cfg} {rep : Bytes} {etag : Option Bytes} {code : Nat} 
       rw [List.length_take, List.length_drop]
     rw [step_b2_some (b := ⟨k / blockSize z, decide (k + blockSize z < s.rep.length), z⟩)
       (by simp [sliceResp])]
-    have hvalid : BlockOpt.validFor ⟨k / blockSize z, decide (k + blockSize z < s.rep.length), z⟩
+    have hz7 : ¬ z = 7 := by omega
+    have hvalid : BlockOpt.okFor ⟨k / blockSize z, decide (k + blockSize z < s.rep.length), z⟩
         (sliceResp s k z none).payload.length = true := by
-      simp only [sliceResp, hplen, BlockOpt.validFor, hsize]
+      simp only [sliceResp, hplen, BlockOpt.okFor, BlockOpt.validFor, hsize, hz7, ↓reduceIte]
       by_cases hm : k + blockSize z < s.rep.length
-      · simp only [hm, decide_true, ↓reduceIte, beq_iff_eq]; omega
-      · simp only [hm, decide_false, Bool.false_eq_true, ↓reduceIte, decide_eq_true_eq]; omega
+      · simp only [hm, decide_true, ↓reduceIte, Bool.and_eq_true, beq_iff_eq, Bool.true_and,
+          Bool.not_eq_true', beq_eq_false_iff_ne, ne_eq]
+        omega
+      · simp only [hm, decide_false, Bool.false_eq_true, ↓reduceIte, decide_eq_true_eq,
+          Bool.false_and, Bool.not_false, Bool.and_true]
+        omega
     have hnew : a.payload ++ (sliceResp s k z none).payload = s.rep.take (k + blockSize z) := by
       simp only [sliceResp]
       rw [hapay, take_append_slice]
@@ -418,8 +433,8 @@ theorem J.run_done {cfg : Cfg} {rep : Bytes} {etag : Option Bytes} {code : Nat} 
       exact ih this.1 (by simp only [List.length_cons] at hlen; omega)
 
 /-- the start of a transfer satisfies the invariant -/
-theorem J.start {cfg : Cfg} (h6 : cfg.szx0 ≤ 6) (rep : Bytes) (etag : Option Bytes) (code : Nat) :
-    ∃ cur, start cfg = .b1 { szx := cfg.szx0, cursor := 0 } cur ∧
+theorem J.start {cfg : Cfg} (h6 : cfg.Ok) (rep : Bytes) (etag : Option Bytes) (code : Nat) :
+    ∃ cur, start cfg = .b1 { szx := startSzx cfg, cursor := 0 } cur ∧
       J cfg rep etag code (start cfg) (Srv.init rep etag code) := by
   obtain ⟨cur, h1, h2⟩ := enterB1_of_inv (B1Inv.start h6)
   refine ⟨cur, h2, ?_⟩
